@@ -1615,6 +1615,7 @@ def run(ctx):
     ctx.log('walker queries the grid per node with the inset of the %s level' % ('queried' if policy == 'level' else 'last seeded'))
 
     empty_levels_case(ctx)
+    several_tasks_case(ctx)
     # lattice worlds
     items = []
     for row in catalogue(ctx.tier):
@@ -1698,6 +1699,90 @@ def empty_levels_case(ctx):
                       'seeded (%d hand-overs)' % (err, len(handed)), {'levels': [], 'grid': 'G2'})
     elif not handed:
         raise tlc.MachineryError('vacuity: the task after the empty one handed nothing over')
+
+
+def several_tasks_case(ctx):
+    """One seed entry with several caches and grids is several tasks (SeedConfiguration.seed_tasks); a run with a progress
+    store (mapproxy-seed always has one) works on them one after the other.  The tasks are independent: per task, the run
+    hands over exactly what a run of that task alone hands over (Seeder.tla describes one task; this is the composition),
+    and every task has a progress identity of its own."""
+    import contextlib
+    import io
+    import shutil
+    import tempfile
+    import mapproxy.seed.seeder as S
+    from mapproxy.config.loader import ProxyConfiguration
+    from mapproxy.seed.config import SeedingConfiguration
+    from mapproxy.seed.util import ProgressStore, ProgressLog
+    d = tempfile.mkdtemp(prefix='verif-c11-tasks-')
+    handed = {}
+
+    class Pool(object):
+        def __init__(self, task, worker_class, size=2, dry_run=False, progress_logger=None):
+            self.key = (task.md['cache_name'], task.md['grid_name'], id(task.tile_manager))
+
+        def process(self, tiles, progress):
+            handed.setdefault(self.cur, {}).setdefault(self.key, []).extend(tuple(t) for t in tiles)
+
+        def stop(self, force=False):
+            pass
+
+    def build():
+        conf = {'services': {'tms': {}},
+                'grids': {'ga': {'srs': 'EPSG:3857', 'bbox': [0, 0, 640, 640], 'res': [40, 20, 10, 5], 'tile_size': [8, 8], 'origin': 'nw'},
+                          'gb': {'srs': 'EPSG:3857', 'bbox': [-300, -300, 900, 660], 'res': [60, 30, 15], 'tile_size': [8, 8], 'origin': 'sw'}},
+                'sources': {'s': {'type': 'tile', 'url': 'http://up.invalid/%(z)s/%(x)s/%(y)s.png', 'grid': 'ga'}},
+                'caches': {n: {'grids': ['ga', 'gb'], 'sources': ['s'], 'meta_size': [2, 2],
+                               'cache': {'type': 'file'}} for n in ('ca', 'cb', 'cc')},
+                'layers': [{'name': n, 'title': n, 'sources': [n]} for n in ('ca', 'cb', 'cc')],
+                'globals': {'cache': {'base_dir': os.path.join(d, 'cd'), 'lock_dir': os.path.join(d, 'l'), 'tile_lock_dir': os.path.join(d, 'tl')}}}
+        seeds = {'seeds': {'several': {'caches': ['ca', 'cb', 'cc'], 'grids': ['ga', 'gb'], 'levels': {'to': 2}, 'coverages': ['cov']},
+                           'single': {'caches': ['ca'], 'grids': ['ga'], 'levels': [1, 3], 'coverages': ['cov']}},
+                 'coverages': {'cov': {'bbox': [90, 50, 410, 330], 'srs': 'EPSG:3857'}}}
+        pc = ProxyConfiguration(conf, conf_base_dir=d, seed=True, renderd=False)
+        return SeedingConfiguration(seeds, mapproxy_conf=pc).seeds()
+
+    def run(tasks, tag):
+        Pool.cur = tag
+        store = ProgressStore(os.path.join(d, 'progress-' + tag), continue_seed=False)
+        logger = ProgressLog(out=io.StringIO(), silent=True, verbose=False, progress_store=store)
+        with contextlib.redirect_stdout(io.StringIO()):
+            S.seed(tasks, concurrency=1, dry_run=False, skip_geoms_for_last_levels=0, progress_logger=logger)
+
+    saved = S.TileWorkerPool
+    S.TileWorkerPool = Pool
+    try:
+        tasks = build()
+        if len(tasks) != 7:
+            raise tlc.MachineryError('expected 7 tasks from the seed configuration, got %d' % len(tasks))
+        ids = [t.id for t in tasks]
+        names = [(t.md['name'], t.md['cache_name'], t.md['grid_name']) for t in tasks]
+        run(tasks, 'together')
+        together = {(k[0], k[1]): sorted(v) for k, v in handed.get('together', {}).items()}
+        alone = {}
+        for i in range(len(tasks)):
+            one = build()[i]                      # a fresh configuration: nothing shared with the run above
+            run([one], 'alone-%d' % i)
+            for k, v in handed.get('alone-%d' % i, {}).items():
+                alone[(k[0], k[1])] = sorted(alone.get((k[0], k[1]), []) + v)
+    finally:
+        S.TileWorkerPool = saved
+        shutil.rmtree(d, ignore_errors=True)
+    ctx.count(('several-tasks', json.dumps(sorted((list(k), len(v)) for k, v in together.items()))))
+    if not alone or not all(alone.values()):
+        raise tlc.MachineryError('vacuity: a task alone handed nothing over: %r' % {k: len(v) for k, v in alone.items()})
+    if len(set(ids)) != len(ids) or len(set(names)) != len(names):
+        ctx.violation({'kind': 'tasks-of-one-run-share-an-identity'},
+                      'the tasks built from one seed configuration do not have identities of their own (progress of one task counts '
+                      'for another): ids %s, names %s' % (ids, names), {'ids': ids, 'names': [list(n) for n in names]})
+    bad = sorted(k for k in alone if together.get(k, []) != alone[k])
+    if bad:
+        k = bad[0]
+        ctx.violation({'kind': 'tasks-not-independent', 'cause': 'several-tasks-in-one-run'},
+                      'a run over several tasks (one seed entry with three caches and two grids, and a second entry) does not do, per '
+                      'task, what a run of that task alone does: cache %s grid %s got %d meta tiles instead of %d (%d of %d tasks differ)' % (
+                          k[0], k[1], len(together.get(k, [])), len(alone[k]), len(bad), len(alone)),
+                      {'together': {'%s/%s' % kk: len(v) for kk, v in together.items()}, 'alone': {'%s/%s' % kk: len(v) for kk, v in alone.items()}})
 
 
 def replay(ctx, data):
